@@ -384,6 +384,76 @@ def apply_r8(mt, log):
             return
 
 
+def apply_r27(mt, log):
+    """R27: `E.iter().skip(N).try_fold(INIT, |A, X| BODY)`  ==>  an indexed loop running BODY once per element from index N, stopping at
+    the first `Err` (definition of Iterator::skip / try_fold for the Result residual; BODY is kept verbatim)"""
+    while True:
+        msk = mask(mt.text)
+        m = re.search(r'\.iter\(\)\s*\.skip\((\d+)\)\s*\.try_fold\(', msk)
+        if not m:
+            return
+        open_p = m.end() - 1
+        close_p = match_close(msk, open_p)
+        # receiver: back from `.iter` over a postfix chain  (ident | ident(..) | ident[..]) ('.' ...)*
+        k = m.start()
+        while True:
+            j = k
+            while j > 0 and msk[j - 1].isspace():
+                j -= 1
+            if j > 0 and msk[j - 1] in ')]':
+                dpt = 0
+                while j > 0:
+                    j -= 1
+                    if msk[j] in ')]':
+                        dpt += 1
+                    elif msk[j] in '([':
+                        dpt -= 1
+                        if dpt == 0:
+                            break
+            while j > 0 and (msk[j - 1].isalnum() or msk[j - 1] == '_'):
+                j -= 1
+            k = j
+            j2 = j
+            while j2 > 0 and msk[j2 - 1].isspace():
+                j2 -= 1
+            if j2 > 0 and msk[j2 - 1] == '.':
+                k = j2 - 1
+                continue
+            break
+        recv = re.sub(r'\s+', '', mt.text[k:m.start()])
+        inner = mt.text[open_p + 1:close_p]
+        imsk = msk[open_p + 1:close_p]
+        # INIT: up to the first top-level comma
+        d = 0
+        cpos = None
+        for i_, ch in enumerate(imsk):
+            if ch in '([{':
+                d += 1
+            elif ch in ')]}':
+                d -= 1
+            elif ch == ',' and d == 0:
+                cpos = i_
+                break
+        if cpos is None:
+            return
+        init = inner[:cpos].strip()
+        rest = inner[cpos + 1:]
+        cm = re.match(r'\s*\|\s*(\w+)\s*,\s*(\w+)\s*\|', rest)
+        if not cm:
+            return
+        body = rest[cm.end():].strip().rstrip(',').strip()
+        a_, x_, n_ = cm.group(1), cm.group(2), m.group(1)
+        new = (' { let mut __acc = %s; let mut __i: usize = %s; let mut __err = None;\n'
+               'while __i < %s.len() && __err.is_none() {\n'
+               'let %s = &%s[__i]; let %s = __acc;\n'
+               'match %s { Ok(__v) => { __acc = __v; } Err(__e) => { __err = Some(__e); } }\n'
+               '__i = __i + 1;\n'
+               '}\n'
+               'match __err { Some(__e) => Err(__e), None => Ok(__acc) } }') % (init, n_, recv, x_, recv, a_, body)
+        mt.replace(k, close_p + 1, new)
+        log.append(('R27', '%s.iter().skip(%s).try_fold(..) => indexed loop over the same closure body' % (recv, n_)))
+
+
 def name_result(sig, binder):
     """`-> T` ==> `-> (binder: T)` in a fn signature (text up to, not including, the body `{`)."""
     msk = mask(sig)
@@ -855,6 +925,7 @@ class Weaver:
                 pos = i + len(new)
             log.append((rid, '%s  =>  %s  (x%d)' % (norm(old), norm(new), cnt)))
         apply_r8(mt, log)
+        apply_r27(mt, log)
         apply_global_rules(mt, log)
         # All woven text goes in through placeholders that are expanded at the very end, so that loop / closure
         # ordinals and text anchors are resolved on code-only text (post-rewrite), never on woven ghost text.
